@@ -1151,6 +1151,7 @@ Proof.
   - apply keeps_queue_send; exact Hg.
   - eapply same_G; [apply n_send_sd|exact Hg].
   - destruct (get_inst i w) as [ins|] eqn:Ei; [|exact Hg]. eapply same_G; [eapply n_put_inst; [exact Ei|reflexivity]|exact Hg].
+  - eapply same_G; [apply n_call_soon; reflexivity|exact Hg].
 Qed.
 
 (* every callback keeps the invariant, whatever else is pending *)
